@@ -39,11 +39,10 @@ func (fn *Function) Exec(thisValue r.Element, params []r.Element) (r.Element, er
 	// convert error to exception
 	if err != nil {
 		switch err.(type) {
-		case *zerr.SyntaxError:
-		case *zerr.SemanticError:
-		case *zerr.IOError:
-		case *zerr.Signal:
+		case *zerr.SyntaxError, *zerr.SemanticError, *zerr.IOError, *zerr.Signal:
 			// return the original error AS IS
+			// (one case list: an empty `case X:` does not fall through in Go - it would
+			// swallow the error and hand a nil result to the caller)
 			return nil, err
 		case *Exception:
 			return nil, err
